@@ -653,3 +653,12 @@ Example merge_generalizes_nonvacuous :
   /\ is_trivial ([(VTy General, 0); (VConst, 0)], [Var STy 0 0; CVar 0 1 usize_ty]) = true
   /\ is_trivial g = false.
 Proof. cbv zeta. repeat split; reflexivity. Qed.
+
+(** The hypothesis on const types is needed: [aggregate_consts] keeps the FIRST const when the
+    values agree and never compares the types, so for ill-typed input the second argument
+    is not an instance of the result. *)
+Example aggregate_needs_const_types :
+  let a := Node (HCConcrete 3) [usize_ty] in
+  let b := Node (HCConcrete 3) [Node (HScalar (Uint U8)) []] in
+  agg_pair 0 a b = Ok ([], a) /\ instance_of b a = false /\ ~ ctys_ok b.
+Proof. cbv zeta. repeat split; try reflexivity. intros [H _]. specialize (H eq_refl). discriminate H. Qed.
